@@ -200,6 +200,42 @@ async fn scenario(case: &Value) -> Value {
         let snapshot = snap_path.and_then(|p| std::fs::read_to_string(p).ok()).and_then(|s| serde_json::from_str::<Value>(&s).ok()).and_then(|v| v.as_array().cloned());
         streams.insert(id.clone(), json!({"kind": k, "live": live, "late": late_v, "log_raw": of(&log_raw), "log_replayed": of(&log_replayed), "sidecar": sidecar, "snapshot": snapshot}));
     }
+    // ---- fault: the last sidecar line of every thread is cut short (a crash after the log flush), then a new
+    //      authority is started on the same store and a subscriber reads each thread again
+    let mut after_fault = serde_json::Map::new();
+    if case["torn_sidecar"] == json!(true) {
+        for (id, k) in &kinds {
+            if k == "thread" {
+                let p = data.join("continuity_streams").join(format!("{id}.jsonl"));
+                if let Ok(meta) = std::fs::metadata(&p) {
+                    if meta.len() > 40 {
+                        if let Ok(f) = std::fs::OpenOptions::new().write(true).open(&p) {
+                            let _ = f.set_len(meta.len() - 25);
+                        }
+                    }
+                }
+            }
+        }
+        let server2 = crate::srv::Server::start(data.clone(), ws.clone(), None, false).await;
+        let base2 = server2.base.clone();
+        let mut subs2: BTreeMap<String, (Sink, tokio::task::JoinHandle<()>)> = BTreeMap::new();
+        for (id, k) in &kinds {
+            if k == "thread" {
+                subs2.insert(id.clone(), subscribe(&client, format!("{base2}/threads/{id}/events")));
+            }
+        }
+        tokio::time::sleep(Duration::from_millis(400)).await;
+        server2.stop().await;
+        for (id, (sink, h)) in subs2 {
+            after_fault.insert(id, json!(sink.lock().unwrap().clone()));
+            h.abort();
+        }
+        for (id, v) in &after_fault {
+            if let Some(st) = streams.get_mut(id) {
+                st["late_after_fault"] = v.clone();
+            }
+        }
+    }
     for (_, (_, h)) in subs {
         h.abort();
     }
